@@ -4,7 +4,7 @@ from __future__ import annotations
 import simplify
 
 ID = "C18"
-THEOREMS = ["simp_sub_nonconst", "simp_sub_negative", "simp_sub_tuple_const", "simp_sub_dict_absent"]
+THEOREMS = ["simplify_total", "simplify_no_internal_error", "simplify_output_wf", "simp_total", "wfq_rename", "simp_sub_nonconst", "simp_sub_negative", "simp_sub_tuple_const", "simp_sub_dict_absent"]
 RULE = (
     "queries of C02's grammar into which literal projections are inserted at random expression positions: a tuple / list / "
     "dict literal wrapped around a sub-expression and indexed with a valid constant, an out-of-range constant, a variable, a "
@@ -12,7 +12,23 @@ RULE = (
     "key that is not a constant before or after the wanted key; non-trivial = at least 8 "
     "AST nodes; distinct = source text"
 )
-EXPLANATION = ('Theorems so far (first layer, about the model of visit_Subscript): a selector that is not an int/str constant leaves the subscript intact around the simplified children (simp_sub_nonconst), a negative constant index leaves a tuple literal intact (simp_sub_negative), a non-negative constant index returns the component or raises the dedicated index error exactly when it is past the end (simp_sub_tuple_const), an absent key leaves a well-formed subscript (simp_sub_dict_absent). Termination / no-internal-error for the whole grammar is in progress. Correspondence: as C02 with the selector stream. Oracle: exception class of the real call (only FuncADLIndexError, and only when some constant non-negative index can be past the end of a literal), ast.unparse + compile of the result, ev equality (semantically intact).')
+EXPLANATION = (
+    "Main theorem simplify_total (Props/C18Total.lean, by simp_total: induction over the fuel and every clause of the visitor "
+    "and of call_Select / call_SelectMany / call_Where): for every well-formed query (wfq, Model/WfQuery.lean: operator names "
+    "only in callee position; First with one argument; Select / SelectMany / Where with two arguments the second of which is a "
+    "one-parameter lambda), every counter and every fuel, the visitor model either returns a query that is again well formed "
+    "(simplify_output_wf) or fails with the dedicated index error - or runs out of the model's fuel; an internal error "
+    "(IndexError / AssertionError / Exception of the Python) is impossible (simplify_no_internal_error). The invariant carried "
+    "through the rewrites: everything on the argument stack and everything re-visited (pushed under First, fused lambdas, "
+    "nested SelectMany) is well formed, renaming keeps well-formedness (wfq_rename), generated names are never operator names. "
+    "Termination itself (that some fuel suffices) is not proved: the run uses fuel 400*size+400 and any fuel error would be a "
+    "disagreement with the implementation. First-layer theorems about visit_Subscript: simp_sub_nonconst, simp_sub_negative, "
+    "simp_sub_tuple_const (index error exactly when past the end), simp_sub_dict_absent. The hypothesis wfq is evaluated on "
+    "every generated query (evidence: 'wfq: hypothesis ... holds'); the generator also produces queries outside it (an operator "
+    "name wrapped in a literal and called), which only the correspondence and the oracles cover. Correspondence: as C02 with "
+    "the selector stream. Oracle: exception class of the real call (only FuncADLIndexError, and only when some constant "
+    "non-negative index can be past the end of a literal), ast.unparse + compile of the result, ev equality."
+)
 
 
 def comprehension_probe(ctx, key):
